@@ -9,7 +9,8 @@ from streams import mh
 TB = [
     "Lean 4.33 kernel; axioms allowed: propext, Classical.choice, Quot.sound (checked by #print axioms on every theorem)",
     "hand-written model lean/SmVerif/Model/MinHash.lean of KmerMinHash + FFI glue + minhash.py dispatch, tied to /repo by the mh correspondence stream (differential testing, not proof)",
-    "translator harness/translate.py (rounding modes of the scaled<->max_hash conversions)",
+    "translator harness/translate.py (rounding modes of the scaled<->max_hash conversions) and harness/translators/mhcore.py: token-level templates of add_hash_with_abundance / remove_hash / clear / merge / intersection / inflate / downsample_* / new / check_compatible and of the FFI glue bodies, with slots for comparison operators, guards, truncation offsets, the abundance sum and every reset_md5sum(); slot values are constants proved equal to the model's (add_decisions_match_model, merge_decisions_match_model, glue_calls_match_model); a body of another shape fails the translation",
+    "the typed operation machine of Model/DriverMh.lean is what the line driver runs (step = render . exec . parseD by definition); parseD (String functions) is not kernel-reducible and is exercised by the stream only",
     "Rust std (Vec::binary_search/insert/remove), cffi marshalling of u64 lists",
     "u64 abundance sums assumed not to wrap (histories whose spec count exceeds 2^64-1 are skipped)",
 ]
